@@ -654,3 +654,9 @@ impl Default for ConsistState {
         }
     }
 }
+
+// Verification hook (inert unless built with `--cfg nrel_altrios_verif` or under `cargo kani`).
+#[cfg(any(kani, nrel_altrios_verif))]
+mod verif_hook {
+    include!(concat!(env!("NREL_ALTRIOS_VERIF_DIR"), "/hooks/consist__consist_model.rs"));
+}
